@@ -7,7 +7,9 @@
  *   mod <t> restrict <cpuset> | insertmisc | insertgroup | allow | distadd <typename> <n> | distremove
  *              | maregister | maset <a> <numa-logical-index> | refresh
  *   cons <t> traverse|typeprint|distget|distrelease|mameta|maget <q> <a>|localnodes|cpukinds|sets|bitmap|exportxml|exportsynth
+ *   filterall <t>         before load: keep every object type (memory-side caches are filtered out by default)
  *   destroy <t>
+ *   env <NAME> [<VALUE>]  setenv / unsetenv (e.g. HWLOC_SYNTHETIC_VERBOSE)
  *   threads <T>           start of a concurrent section: the next lines are
  *   prog <i> <command>    appended to thread i's program (any command above)
  *   run                   run the T programs concurrently, then print per-thread digests and the
@@ -275,6 +277,16 @@ static uint64_t c_exportsynth(hwloc_topology_t t)
   return h;
 }
 
+/* the condition under which hwloc__export_synthetic_memory_children goes through its `static int warned`:
+ * HWLOC_SYNTHETIC_VERBOSE set and a non-NUMA memory object with several memory children below a memory child */
+static int synth_warns(hwloc_topology_t t)
+{
+  const char *env = getenv("HWLOC_SYNTHETIC_VERBOSE"); hwloc_obj_t o = NULL;
+  if (!env || !atoi(env)) return 0;
+  while ((o = hwloc_get_next_obj_by_type(t, HWLOC_OBJ_MEMCACHE, o)) != NULL) if (o->memory_arity > 1) return 1;
+  return 0;
+}
+
 /* ---------------- one command ---------------- */
 struct outcome { int rc; uint64_t digest; char oracle[512]; };
 
@@ -299,6 +311,7 @@ static void run_cmd(char *cmd, struct outcome *out, int verbose)
   }
   t = topos[ti];
   if (!t) return;
+  if (!strcmp(kind, "filterall")) { out->rc = hwloc_topology_set_all_types_filter(t, HWLOC_TYPE_FILTER_KEEP_ALL) == 0; return; }
   if (!strcmp(kind, "destroy")) { hwloc_topology_destroy(t); topos[ti] = NULL; out->rc = 1; return; }
   if (!strcmp(kind, "load")) {
     unsigned long flags = 0; int bind = 0, o2 = 0; char src[16]; int rc; cpu_set_t saved; int have_saved = 0;
@@ -425,6 +438,11 @@ int main(void)
     while (n && (line[n-1] == '\n' || line[n-1] == '\r')) line[--n] = 0;
     lineno++;
     if (!n || line[0] == '#') continue;
+    if (!strncmp(line, "env ", 4)) {
+      char *name = line + 4, *sp = strchr(name, ' ');
+      if (sp) { *sp = 0; setenv(name, sp + 1, 1); } else unsetenv(name);
+      continue;
+    }
     if (!strncmp(line, "threads ", 8)) {
       nthreads = (unsigned)atoi(line + 8); if (nthreads > MAXTH) nthreads = MAXTH;
       for (i = 0; i < MAXTH; i++) { unsigned k; for (k = 0; k < proglen[i]; k++) free(progs[i][k]); proglen[i] = 0; tbad[i] = 0; }
@@ -461,6 +479,7 @@ int main(void)
       if (ti < MAXT && topos[ti]) { after = cache_digest(topos[ti]); print_flags(topos[ti]); printf(" chg=%d", before != after); }
       else printf(" nd=0 dv=- mv=- chg=0");
       if (!strcmp(kind, "cons")) printf(" digest=%016llx", (unsigned long long)oc.digest);
+      if (!strcmp(kind, "cons") && strstr(line, " exportsynth") && ti < MAXT && topos[ti]) printf(" warns=%d", synth_warns(topos[ti]));
       printf("\n");
     }
   }
